@@ -309,6 +309,11 @@ func drawCase(t *rapid.T) *Case {
 		}
 		c.Open = append(c.Open, oc)
 	}
+	if n > 1 && rapid.IntRange(0, 3).Draw(t, "twinindex") == 0 {
+		// the second index holds exactly the data of the first (another file,
+		// another handle): what is right on the first must be right on the second
+		c.Data[1] = c.Data[0]
+	}
 	d0 := model.NewData(c.Data[0].Rows())
 	pool := gen.NewLeafPool(d0).AllowEmptyName()
 	c.Expr = pool.Expr(t, gen.ExprOpts{MaxDepth: 4})
